@@ -676,6 +676,7 @@ func c17Geomean(c *Ctx, p *Prog) {
 		// every append of a Mean into the collected slice is guarded by Mean != 0
 		ok := true
 		found := false
+		notFromCollection := ""
 		eachInstr(f, func(b *ssa.BasicBlock, in ssa.Instruction) {
 			call, isCall := in.(*ssa.Call)
 			if !isCall {
@@ -693,8 +694,39 @@ func c17Geomean(c *Ctx, p *Prog) {
 						if ia, isIA := r.(*ssa.IndexAddr); isIA {
 							for _, r2 := range *ia.Referrers() {
 								if st, isSt := r2.(*ssa.Store); isSt {
-									if lf, _ := loadOfField(st.Val); lf == meanF {
+									if lf, base := loadOfField(st.Val); lf == meanF {
 										appendsMean = true
+										// whose mean: a metric looked up in the collection's metric table (so that
+										// every benchmark the configuration ran takes part), not one taken from
+										// the rows of a table (two-configuration tables omit benchmarks that one
+										// side lacks)
+										fromCollection := false
+										var walk func(v ssa.Value, d int)
+										walk = func(v ssa.Value, d int) {
+											if d > 6 || v == nil {
+												return
+											}
+											switch x := v.(type) {
+											case *ssa.Lookup:
+												if mf, _ := loadOfField(x.X); mf != nil && mf.Name() == "Metrics" {
+													if pv, ok := mf.Type().Underlying().(*types.Map); ok && pv != nil {
+														fromCollection = true
+													}
+												}
+											case *ssa.Extract:
+												walk(x.Tuple, d+1)
+											case *ssa.Phi:
+												for _, e := range x.Edges {
+													walk(e, d+1)
+												}
+											case *ssa.UnOp:
+												walk(x.X, d+1)
+											}
+										}
+										walk(base, 0)
+										if !fromCollection {
+											notFromCollection = p.pos(st.Pos())
+										}
 									}
 								}
 							}
@@ -723,6 +755,7 @@ func c17Geomean(c *Ctx, p *Prog) {
 			}
 		})
 		c.Check(found && ok, R, fnName(f)+":nonzero-means", p.pos(f.Pos()), "a mean enters the geomean only when it is non-zero", "zero means are included in the geometric mean (making it zero/undefined)")
+		c.Check(found && notFromCollection == "", R, fnName(f)+":means-of-the-configuration", p.pos(f.Pos()), "the means are those of the collection's metrics for the configuration and unit", "a mean entering the geomean (at "+notFromCollection+") is not read from the collection's metric table: taken from the rows of a table it misses every benchmark that a two-configuration table leaves out because the other configuration did not run it, so the geomean row is not the geometric mean of the configuration's non-zero means")
 	}
 	_ = fn
 	c.Floor(R, "geomean computations", n, 1)
